@@ -1,5 +1,9 @@
 """C03 -- a matching round clears every executable pair and never fails."""
+from hypothesis import strategies as st
+
+from ..common import CaseInfo, Violation
 from ..market_machine import market_cases
+from ..simharness import CancelLog, ExecutionLog, OrderLog, run_case
 from ._market_common import frac, fuzz_part, make_check
 
 ID = "C03"
@@ -7,7 +11,10 @@ RULE = ("Histories as for C01 with batch mode weighted 3:1 and 15-30% market ord
         "orders on one or both sides accumulate while matching is off. After every round: no exception, post-state "
         "uncrossed (on the independent model driven by the actual fills and on pams' getters), per-order fill totals equal "
         "the reference greedy walk. Non-trivial = history with a round on a book crossed by >=2 levels or holding market "
-        "orders on both sides.")
+        "orders on both sides. (sim) the same engine as the runner drives it: C09's session lists and C16's halt-rule "
+        "configurations (one or two rules, one or both markets as targets); an exception escaping a round is attributed to "
+        "C03 through its innermost pams frame, and without an enabled halt rule the book of the accepted order's market must "
+        "not be executable at the next observation point of an execution session; non-trivial there = run with >=2 fills.")
 ASSUMPTIONS = ["the part 'nonpositive' uses limit prices <= 0, which pams accepts with a warning; all other parts use positive prices",
                "thorough tier adds a coverage-guided atheris campaign over byte-decoded histories (16 processes, half from an empty corpus); its saved decoded case, not the campaign, is the reproducible unit",
                "when both best orders are market orders (outside C03's premise) the engine's decision not to run a round is accepted"]
@@ -38,6 +45,51 @@ def _nonpositive_strategy(tier):
 
 PARTS["nonpositive"] = {"check": make_check({"C03"}, _nt), "strategy": _nonpositive_strategy, "budget": {"quick": 1500, "thorough": 40000}}
 PARTS["fuzz"] = fuzz_part("C03", {"C03"}, _nt)
+
+
+# -- rounds as the runner triggers them (sessions, halts, events around the matching engine) --------------------------------
+
+
+@st.composite
+def _sim_cases(draw, tier):
+    from . import c09, c16
+    if draw(st.booleans()):
+        return dict(draw(c16.cases(tier)), family="halt")
+    return dict(draw(c09.cases(tier)), family="sessions")
+
+
+def _sim_check(case):
+    from ._sim_common import summarize
+    from ..oracles import Analysis
+    # an exception escaping the matching round surfaces here as PamsCrash and is attributed through its innermost pams frame
+    # (pams/market.py is C03's anchor)
+    res = run_case(case, {"exec_state": True})
+    A = Analysis(case, res)
+    sim = A.sim
+    halt_rule = any(isinstance(v, dict) and v.get("class") == "TradingHaltRule" and v.get("enabled", True) for v in case["config"].values())
+    rounds = checks = 0
+    for s in A.steps:
+        cs = A.sess_cfg[s["session"].session_id]
+        pend = None
+        for i, k, kw in s["items"]:
+            if kw.get("executable") is not None and pend is not None:
+                mi, what = pend
+                # without a halt rule the session flag alone decides whether a round follows the acceptance
+                if cs["withOrderExecution"] and not halt_rule and kw["executable"][mi]:
+                    raise Violation("C03.clears_every_executable_pair", f"step {s['t']}: after the round that followed the accepted {what} on market {mi} "
+                                                                        f"the book is still executable at the next observation point ({k})")
+                checks += 1
+                pend = None
+            if k == "log.write" and isinstance(kw["log"], (OrderLog, CancelLog)):
+                pend = (sim.markets.index(sim.id2market[kw["log"].market_id]), type(kw["log"]).__name__)
+            if k == "log.write" and isinstance(kw["log"], ExecutionLog):
+                rounds += 1
+    nt = rounds >= 2
+    classes = [case.get("family", "?")] + (["fills"] if rounds else []) + (["halt_rule"] if halt_rule else [])
+    return CaseInfo(nontrivial=nt, classes=classes, steps=A.total_steps, sample={"case": summarize(case), "fills": rounds, "checks": checks})
+
+
+PARTS["sim"] = {"check": _sim_check, "strategy": _sim_cases, "budget": {"quick": 1500, "thorough": 30000}}
 
 
 def vacuity(merged, tier):
